@@ -4,7 +4,7 @@ use super::PropRun;
 use crate::case::{new_vt, Call, Case, Verdict};
 use crate::engine::{random_part, run_part, Env, EvidenceMeta, Tally};
 use crate::gen::{self, G};
-use crate::observe::{geometry_violation, logical, trim_sp};
+use crate::observe::{geometry_violation, logical, logical_cells, pens_relation, trim_sp};
 use crate::src::Src;
 use crate::walk::ScreenTracker;
 
@@ -85,6 +85,7 @@ pub fn judge(_part: &str, case: &Case, tally: &mut Tally) -> Verdict {
                     continue;
                 }
                 let (before, cp) = logical(&vt);
+                let cells_before = logical_cells(&vt);
                 let col_before = vt.cursor().col;
                 let row_before = vt.cursor().row;
                 let rows_before = vt.size().1;
@@ -96,6 +97,9 @@ pub fn judge(_part: &str, case: &Case, tally: &mut Tally) -> Verdict {
                 }
                 if let Some((sig, msg)) = relation(&before, cp, col_before, cols, &after, cp2) {
                     return Verdict::fail(sig, format!("resize call {} ({}x{} -> {}x{}): {}; logical lines before {:?} cursor {:?}; after {:?} cursor {:?}", i, cols, rows_before, c, r, msg, before, cp, after, cp2));
+                }
+                if let Some(m) = pens_relation(&cells_before, &logical_cells(&vt), cp.0) {
+                    return Verdict::fail("pens", format!("resize call {} ({}x{} -> {}x{}): re-wrapping changed a pen: {}", i, cols, rows_before, c, r, m));
                 }
                 let minw = cols.min(*c);
                 if *c != cols && before.iter().any(|l| trim_sp(l).chars().count() > minw) {
@@ -154,6 +158,9 @@ pub fn gen_paragraphs(src: &mut Src, _i: usize) -> Case {
         let len = src.range(1, cols * 4);
         plens.push(len);
         for k in 0..len {
+            if src.chance(1, 9) {
+                s.push_str(*src.pick(&["\x1b[31m", "\x1b[1;44m", "\x1b[m", "\x1b[7m", "\x1b[38;5;200m"]));
+            }
             s.push((b'a' + ((p * 5 + k) % 26) as u8) as char);
         }
         if p + 1 < np {
